@@ -698,6 +698,74 @@ impl RenetClient {
     }
 }
 
+#[cfg(renet_verif)]
+impl RenetClient {
+    /// Accounted memory of every receive channel as (channel id, is reliable, bytes), sorted.
+    pub fn verif_receive_memory(&self) -> Vec<(u8, bool, usize)> {
+        let mut v: Vec<(u8, bool, usize)> = self
+            .receive_reliable_channels
+            .iter()
+            .map(|(id, c)| (*id, true, c.verif_memory()))
+            .chain(self.receive_unreliable_channels.iter().map(|(id, c)| (*id, false, c.verif_memory())))
+            .collect();
+        v.sort_unstable();
+        v
+    }
+
+    /// Accounted memory of every send channel as (channel id, is reliable, bytes), sorted.
+    pub fn verif_send_memory(&self) -> Vec<(u8, bool, usize)> {
+        let mut v: Vec<(u8, bool, usize)> = self
+            .send_reliable_channels
+            .iter()
+            .map(|(id, c)| (*id, true, c.verif_memory()))
+            .chain(self.send_unreliable_channels.iter().map(|(id, c)| (*id, false, c.verif_memory())))
+            .collect();
+        v.sort_unstable();
+        v
+    }
+
+    /// Unacknowledged messages of every reliable send channel, sorted by channel id.
+    pub fn verif_unacked(&self) -> Vec<(u8, Vec<(u64, Vec<bool>)>)> {
+        let mut v: Vec<(u8, Vec<(u64, Vec<bool>)>)> = self.send_reliable_channels.iter().map(|(id, c)| (*id, c.verif_unacked())).collect();
+        v.sort_unstable_by_key(|(id, _)| *id);
+        v
+    }
+
+    /// (channel id, oldest pending id, buffered ids, ids under reassembly) of every reliable receive channel, sorted.
+    pub fn verif_receive_reliable_state(&self) -> Vec<(u8, u64, Vec<u64>, Vec<u64>)> {
+        let mut v: Vec<(u8, u64, Vec<u64>, Vec<u64>)> = self
+            .receive_reliable_channels
+            .iter()
+            .map(|(id, c)| {
+                let (oldest, messages, slices) = c.verif_state();
+                (*id, oldest, messages, slices)
+            })
+            .collect();
+        v.sort_unstable_by_key(|(id, ..)| *id);
+        v
+    }
+
+    /// (channel id, ids under reassembly) of every unreliable receive channel, sorted.
+    pub fn verif_receive_unreliable_state(&self) -> Vec<(u8, Vec<u64>)> {
+        let mut v: Vec<(u8, Vec<u64>)> = self.receive_unreliable_channels.iter().map(|(id, c)| (*id, c.verif_slices())).collect();
+        v.sort_unstable_by_key(|(id, _)| *id);
+        v
+    }
+
+    pub fn verif_pending_acks(&self) -> Vec<(u64, u64)> {
+        self.pending_acks.iter().map(|r| (r.start, r.end)).collect()
+    }
+
+    /// Sequence numbers of the sent packets that are still tracked, ascending.
+    pub fn verif_sent_packets(&self) -> Vec<u64> {
+        self.sent_packets.keys().copied().collect()
+    }
+
+    pub fn verif_packet_sequence(&self) -> u64 {
+        self.packet_sequence
+    }
+}
+
 #[cfg(test)]
 mod tests {
     use super::*;
